@@ -264,6 +264,22 @@ func (g *genCtx) etagHdr() string {
 		`,`, ` , , `, `"unterminated`, `"a","b",`, `W/"a" W/"b"`, strings.Repeat(`"e",`, 50), `""`, ` "sink-etag" `, `abc`, "\t", `"sink-etag`})
 }
 
+// cacheControl yields a directive list: repeated directives, quoted arguments, look-alikes of
+// no-cache as a substring of other tokens and inside quoted strings.
+func (g *genCtx) cacheControl() string {
+	r := g.r
+	if r.Chance(1, 6) {
+		return gen.Pick(r, []string{"no-cache", "max-age=0", "xno-cache", "no-cachex", "NO-CACHE", "", ",", "no-cache,", ",no-cache", "no-cache no-cache"})
+	}
+	pool := []string{"no-cache", "no-cache=\"set-cookie\"", "no-cache=\"x\"", "x-no-cache", "no-cache-extension", "private=\"no-cache\"", "private=\"x-no-cache\"",
+		"max-age=0", "no-store", "must-revalidate", "public", "private", "ext=\"a, no-cache, b\"", "no-cache=", "s-maxage=0", "xno-cache", "no-cachex"}
+	var p []string
+	for i, n := 0, r.Range(1, 5); i < n; i++ {
+		p = append(p, gen.Pick(r, pool))
+	}
+	return strings.Join(p, gen.Pick(r, []string{", ", ",", " , ", ";"}))
+}
+
 func (g *genCtx) dateHdr() string {
 	return gen.Pick(g.r, []string{"Wed, 21 Oct 2015 07:28:00 GMT", "Mon, 01 Jan 2024 00:00:00 GMT", "Monday, 01-Jan-24 00:00:00 GMT",
 		"Mon Jan  1 00:00:00 2024", "garbage", "", "0", "Wed, 21 Oct 2015 07:28:00", "Tue, 01 Jan 2030 00:00:00 GMT", "Thu, 01 Jan 1970 00:00:00 GMT"})
@@ -661,9 +677,7 @@ func (g *genCtx) request(rid string) *rq {
 		{"X-Url-Scheme", func() string { return gen.Pick(r, []string{"https", "http", "x"}) }},
 		{"If-None-Match", g.etagHdr},
 		{"If-Modified-Since", g.dateHdr},
-		{"Cache-Control", func() string {
-			return gen.Pick(r, []string{"no-cache", "max-age=0", "no-cache, no-store", "xno-cache", "no-cachex", "private,no-cache", "no-cache=\"x\"", "NO-CACHE", ""})
-		}},
+		{"Cache-Control", g.cacheControl},
 		{"X-Requested-With", func() string { return gen.Pick(r, []string{"XMLHttpRequest", "xmlhttprequest", "x"}) }},
 		{"Referer", func() string {
 			return gen.Pick(r, []string{"http://ref.example/p?q=1", "/local", "", "javascript:alert(1)", "http://é/"})
@@ -682,6 +696,14 @@ func (g *genCtx) request(rid string) *rq {
 		if h.name == "Cookie" {
 			q.Hdr = append(q.Hdr, hf{"Cookie", g.cookieHdr(q)})
 			continue
+		}
+		if h.name == "Cache-Control" && r.Chance(3, 4) {
+			// Fresh() looks at Cache-Control only for conditional requests
+			if r.Bool() {
+				q.Hdr = append(q.Hdr, hf{"If-None-Match", g.etagHdr()})
+			} else {
+				q.Hdr = append(q.Hdr, hf{"If-Modified-Since", g.dateHdr()})
+			}
 		}
 		name := h.name
 		if r.Chance(1, 12) {
